@@ -143,6 +143,21 @@ func (Migrator) Migrate(
 		}
 
 		if !shouldMigrate {
+			// Blocks without transactions leave nothing in the old buckets, so a run that was
+			// interrupted before a tail of empty blocks cannot be told from a finished one by
+			// looking at them. Those blocks still need their (empty) combined record.
+			firstMissing, err := firstTailBlockWithoutCombinedRecord(database, chainHeight)
+			if err != nil {
+				return shouldRerun, err
+			}
+			if firstMissing <= chainHeight {
+				res := migrateBlockRange(ctx, database, logger, firstMissing, chainHeight)
+				if res.Err != nil || !res.IsDone {
+					return shouldRerun, res.Err
+				}
+				continue
+			}
+
 			logger.Info("no starting block found, exiting")
 			return shouldNotRerun, clearOldBuckets(database)
 		}
